@@ -89,7 +89,7 @@ func vdrCase(c *Ctx, focus string) {
 		c.Res.Probes["template-program"]++
 	}
 	mode := []string{"rolling", "post", "strict"}[c.Plan.Draw(3)]
-	cfg := &RunCfg{Prog: prog, FCfg: &FCfg{MaxLen: 1 + c.Plan.Draw(3), MaxChunks: c.Plan.Draw(4), Salt: "vdr", AllowNil: c.Plan.Draw(3) == 0},
+	cfg := &RunCfg{Prog: prog, FCfg: &FCfg{MaxLen: 1 + c.Plan.Draw(3), MaxChunks: c.Plan.Draw(4), Salt: "vdr", AllowNil: c.Plan.Draw(3) == 0, PathStrings: c.Plan.Draw(3) == 0},
 		MaxSteps: 80000, ExtraFiles: true, LinkDirs: c.Plan.Draw(3) == 0, Companions: c.Plan.Draw(2) == 0, DirOutputs: c.Plan.Draw(3) == 0}
 	cfg.Flags = append(baseFlags(c.Plan), "--vdrmode="+mode)
 	swarmSched(c.Plan, cfg)
